@@ -64,6 +64,8 @@ pub use json::{
     parse_json, parse_json_path, JsonNavigator, JsonParseResult, JsonToken, JsonTokenizer,
     JsonValue,
 };
+#[cfg(kahflane_turdb_verif)]
+pub use literal::verif_date_to_days_since_epoch;
 pub use literal::{
     parse_binary_blob, parse_date, parse_hex_blob, parse_interval, parse_time, parse_timestamp,
     parse_uuid, parse_vector, LiteralParser, ParsedLiteral,
